@@ -633,3 +633,46 @@ def c17_error_precedence(f, line, impl, spec):
         return _c17_decode_as_written(radix, s, cap) == 'err:InputSize'
     except Exception:
         return False
+
+
+def c02_boxed_ct_div_precision(f, line, impl, spec):
+    """C02-boxed-ct-div-precision-assert: the constant-time BoxedUint division forms (div_rem, rem,
+    wrapping_div, `/` `%` `/=` `%=` by value / reference, Wrapping) panic on the undocumented
+    `assert_eq!` of `div_rem_unchecked` whenever dividend and divisor have DIFFERENT precision, although
+    the property demands q, r for mixed-width divisors (div_rem_vartime / rem_vartime serve the same
+    operands).  Matches only: a `_mixed` constant-time op, different limb counts, non-zero divisor,
+    implementation output `panic`, specification a value.  A wrong VALUE is never this finding."""
+    t = line.split()
+    if t[0] not in ('c02.b.div_rem_mixed', 'c02.b.div_forms_mixed', 'c02.b.rem_forms_mixed') or len(t) != 5:
+        return False
+    try:
+        nl, dl, d = int(t[1]), int(t[2]), int(t[4], 16)
+    except ValueError:
+        return False
+    return nl != dl and d % (1 << (64 * dl)) != 0 and impl == 'panic' and spec != 'panic'
+
+
+def c02_checked_div_mixed(f, line, impl, spec):
+    """C02-boxed-checked-div-precision: BoxedUint::checked_div(&rhs) with rhs.precision != self.precision.
+    `ct_select(one_with_precision(self.precision), rhs, ..)` only debug-asserts equal precision and then
+    reads `rhs.limbs[i]` for i < self.nlimbs(): with debug assertions -> panic; release -> index panic for a
+    NARROWER rhs, silent truncation of a WIDER rhs to self's limb count (then `zero divisor` panic if the
+    truncated value is 0, else the quotient by the TRUNCATED divisor).  Matches only exactly these
+    outputs; anything else on this op is a violation."""
+    t = line.split()
+    if t[0] != 'c02.b.checked_div_mixed' or len(t) != 5:
+        return False
+    try:
+        nl, dl, n, d = int(t[1]), int(t[2]), int(t[3], 16), int(t[4], 16)
+    except ValueError:
+        return False
+    if nl == dl:
+        return False
+    n %= 1 << (64 * nl)
+    d %= 1 << (64 * dl)
+    if impl == 'panic':
+        return True          # debug assertions: always; release: narrower rhs, or truncated rhs == 0
+    if dl < nl or d == 0:
+        return False
+    nz = d % (1 << (64 * nl))
+    return nz != 0 and impl == f'{nl}:{n // nz:x}'
